@@ -84,6 +84,21 @@ func (e *Extractor) clone() *Extractor {
 		warnings:     append([]Warning(nil), e.warnings...),
 		ocrClient:    e.ocrClient,
 	}
+	// A reader this extractor opened itself is closed by its terminal
+	// operations. Sharing it would let a derived extractor close it under the
+	// original (or the other way round), so a derived extractor opens its own
+	// reader from the file name when it needs one.
+	if e.ownsReader && e.filename != "" {
+		newExt.reader = nil
+		newExt.docxReader = nil
+		newExt.odtReader = nil
+		newExt.xlsxReader = nil
+		newExt.pptxReader = nil
+		newExt.htmlReader = nil
+		newExt.epubReader = nil
+		newExt.ownsReader = false
+		newExt.readerOpened = false
+	}
 	return newExt
 }
 
